@@ -30,18 +30,19 @@ def one(seed):
         r = subprocess.run(['patch', '-p1', '-s', '-f', '-d', tmp, '-i', patch], capture_output=True, text=True)
         if r.returncode != 0:
             return seed, 'PATCH-FAILED', {}
-        man = json.load(open(os.path.join(VERIF, 'MANIFEST.json')))
         env = dict(os.environ, MALSA_REPO=tmp, MALSA_NO_EVIDENCE='1')
+        code = ('import sys, json; sys.path.insert(0, %r); from malsa.runner import check_all; '
+                'print("RESULT " + json.dumps(check_all(%r)))' % (VERIF, tmp))
+        r = subprocess.run(['/venv/bin/python', '-c', code], cwd=VERIF, env=env, capture_output=True, text=True)
         fired = {}
-        for c in man['checks']:
-            pid = c['property_id']
-            r = subprocess.run(['/venv/bin/python', '-m', 'malsa', 'check', pid], cwd=VERIF, env=env,
-                               capture_output=True, text=True)
-            if r.returncode == 1:
-                rules = sorted(set(re.findall(r'rule=(\w+)', r.stdout)))
-                fired[pid] = rules
-            elif r.returncode != 0:
-                fired[pid] = ['EXIT%d' % r.returncode]
+        line = [l for l in r.stdout.splitlines() if l.startswith('RESULT ')]
+        if not line:
+            return seed, 'SWEEP-ERROR', {'?': [(r.stderr or r.stdout)[-200:]]}
+        for pid, res in json.loads(line[-1][7:]).items():
+            if res['exit'] == 1:
+                fired[pid] = res['rules']
+            elif res['exit'] != 0:
+                fired[pid] = ['EXIT%d' % res['exit']]
         return seed, ('CAUGHT' if fired else 'MISSED'), fired
     finally:
         shutil.rmtree(tmp, ignore_errors=True)
